@@ -24,6 +24,8 @@ def impl(case):
     for name, build in (("char", lambda: L.char_cfg(charset=cs)), ("byte", lambda: L.byte_cfg(charset=cs))):
         try:
             g = build()
+            if case.get("twice"):
+                g = build()              # the same LarkStuff object asked again: same grammar expected
             out[name + "_disjoint"] = len(g.N & g.V) == 0
             acc = []
             items = case["strings"] if name == "char" else [s.encode("utf-8") for s in case["strings"]] + [bytes(b) for b in case["bad_bytes"]]
@@ -44,7 +46,7 @@ TERM_CHARSETS = [list("ab "), list("abc "), list("aéü "), list("abA "), list("
 def make_case(rng, i, tier):
     cs = rng.choice(TERM_CHARSETS)
     letters = [c for c in cs if c != " "]
-    nterm = rng.choice([1, 2, 2, 3])
+    nterm = rng.choice([1, 2, 2, 3, 4, 4])
     terms = []
     for k in range(nterm):
         name = "T" + "ABCD"[k]
@@ -122,7 +124,7 @@ def make_case(rng, i, tier):
                     if mix not in mb:
                         bad.append(mix)
                         bad.append([ord("1")] + mix + [ord("1")] if "1" in cs else mix + mix)
-    return {"id": i, "grammar": "\n".join(lines) + "\n", "charset": cs, "terms": terms, "ignore": ignore, "rules": rules, "strings": strings, "bad_bytes": bad[:12] + bad[12:][-24:]}
+    return {"id": i, "twice": rng.random() < 0.35, "grammar": "\n".join(lines) + "\n", "charset": cs, "terms": terms, "ignore": ignore, "rules": rules, "strings": strings, "bad_bytes": bad[:12] + bad[12:][-24:]}
 
 
 def _lit_ast(lit):
